@@ -164,6 +164,17 @@ static FWire c09(Reader& r) {
         for (size_t i=0;i<W.nlin();++i) for (size_t j=0;j<W.ncol();++j) { const SparseMatrix& C=W; o.push_back(exact(C(i,j))); }
         return FWire{o,{}};
     }
+    if (op==17) {
+        // label-based constructor Sensors(labels,positions,orientations,weights,radii): labels, integer weights
+        size_t n=r.n(); Strings labels; Vector w(n), radii(n); Matrix pos(n,3), ori(n,3);
+        for (size_t k=0;k<n;++k) labels.push_back("s"+std::to_string(r.n()));
+        for (size_t k=0;k<n;++k) { w(k)=(double)r.z(); radii(k)=0.0; pos(k,0)=k+0.5; pos(k,1)=0.25; pos(k,2)=1.5; ori(k,0)=0.0; ori(k,1)=0.0; ori(k,2)=1.0; }
+        Sensors s(labels,pos,ori,w,radii);
+        SparseMatrix W=s.getWeightsMatrix();
+        Wire o{ST_OK,(ll)s.getNumberOfSensors()};
+        for (size_t i=0;i<W.nlin();++i) for (size_t j=0;j<W.ncol();++j) { const SparseMatrix& C=W; o.push_back(exact(C(i,j))); }
+        return FWire{o,{}};
+    }
     if (op==5) {
         size_t n=r.n(); std::vector<size_t> ls; std::vector<ll> ws;
         for (size_t k=0;k<n;++k) ls.push_back(r.n());
